@@ -43,6 +43,9 @@ def run(run, model):
     run.do(common.truth_rule, model, "C02.truth")
     from . import twins
     run.do(twins.helper_dispatch, model, "C02.await-dispatch", "C02.sync-reject")
+    # the error of the violated postcondition is raised, not an error from locating the decorator in the file
+    from . import msg
+    run.do(msg.scan_bounds, model, "C02.error-raised-scan")
     run.minimum("C02.gate", 2)
     run.minimum("C02.result-identity", 11, "two returns per marker wrapper, one in the __new__ wrapper")
     run.minimum("C02.exc-transparent", 11)
